@@ -140,12 +140,22 @@ pub(crate) fn verify_nonmembership<TC: Configuration>(
         ));
     }
 
-    let lcp_hash = TC::compute_parent_hash_from_children(
-        &proof.longest_prefix_children[0].value,
-        &proof.longest_prefix_children[0].label.value::<TC>(),
-        &proof.longest_prefix_children[1].value,
-        &proof.longest_prefix_children[1].label.value::<TC>(),
-    );
+    // A root without any child (the empty tree) does not carry the hash of two empty
+    // children but the dedicated empty root value
+    let both_children_empty = proof
+        .longest_prefix_children
+        .iter()
+        .all(|child| child.label == TC::empty_label() && child.value == TC::empty_node_hash());
+    let lcp_hash = if both_children_empty {
+        TC::empty_root_value()
+    } else {
+        TC::compute_parent_hash_from_children(
+            &proof.longest_prefix_children[0].value,
+            &proof.longest_prefix_children[0].label.value::<TC>(),
+            &proof.longest_prefix_children[1].value,
+            &proof.longest_prefix_children[1].label.value::<TC>(),
+        )
+    };
     if lcp_children != proof.longest_prefix_membership_proof.label
         || lcp_hash != proof.longest_prefix_membership_proof.hash_val
     {
